@@ -660,8 +660,8 @@ class SSHLineEditor:
 
         self._width = width or _DEFAULT_WIDTH
 
-        if self._wrap:
-            _, self._cursor = self._determine_column(self._line,
+        if self._wrap and self._echo:
+            _, self._cursor = self._determine_column(self._line[:self._pos],
                                                      self._start_column, 0)
 
         self._redraw()
